@@ -12,7 +12,7 @@ from __future__ import annotations
 
 import ast
 
-from ..core import regex_call, AnalysisError, const_value, norm, walk_own, walk_stmts
+from ..core import regex_call, AnalysisError, const_value, names_in, norm, walk_own, walk_stmts
 from ..paths import enum_paths
 from .. import relang
 from . import conv_common as cc
@@ -97,6 +97,17 @@ def r03_1(ctx, run):
     brk = [p for p in paths if p.term == "break"]
     ok_eof = bool(brk) and all(any(e.kind == "test" and e.pol and norm(e.node).startswith("not ") for e in p.events) for p in brk)
     ctx.check(ok_eof, "R03.1", run.where(loop), "the indexing loop ends only on an empty read (end of file)", key_of(run, "eof"))
+    # the record is cut into columns like the parser cuts it: on tabs only (a read name may contain blanks)
+    rl = [st for st in walk_stmts(loop.body) if isinstance(st, ast.Assign) and isinstance(st.value, ast.Call) and isinstance(st.value.func, ast.Attribute) and st.value.func.attr == "readline" and isinstance(st.targets[0], ast.Name)]
+    if rl:
+        lv = rl[0].targets[0].id
+        splits = [c for c in ast.walk(loop) if isinstance(c, ast.Call) and isinstance(c.func, ast.Attribute) and c.func.attr in ("split", "rsplit", "partition") and lv in names_in(c.func.value)]
+        if not splits:
+            raise AnalysisError("R03.8", run.where(loop), "cannot find where the indexed line is split into columns")
+        for c in splits:
+            sep = const_value(c.args[0], None) if c.args else None
+            okc = c.func.attr == "split" and sep == "\t" and len(c.args) == 1 and not c.keywords
+            ctx.check(okc, "R03.8", run.where(c), "the indexer splits a record on tabs only, as the parser does (a read name with a blank keeps the path in column 6)", key_of(run, f"column-split:{norm(c)[-30:]}"), call=norm(c)[-60:])
     return info
 
 
